@@ -130,14 +130,39 @@ Section Sem.
     | None => Err true
     end.
 
-  Definition nary (o : nop) (vs : list val) : rs val :=
+  (* strict n-ary nodes are folded as Python does it: sum(gen) / reduce(mul, gen, 1) /
+     min(gen) / max(gen) consume the children one by one, so a TypeError on child k is
+     raised before child k+1 is evaluated; call arguments are all evaluated first *)
+  Inductive nacc := NZ (z : Z) | NV (best : option val) | NL (rev_args : list val).
+
+  Definition ninit (o : nop) : nacc :=
     match o with
-    | NSum => lift (option_map (fun zs => VInt (fold_left Z.add zs 0)) (as_ints vs))
-    | NProd => lift (option_map (fun zs => VInt (fold_left Z.mul zs 1)) (as_ints vs))
-    | NMin => lift (ext Z.ltb vs)
-    | NMax => lift (ext (fun a b => b <? a) vs)
-    | NCall f kw => call1 f kw vs
-    | NAnd | NOr => Err false   (* handled lazily in eval *)
+    | NSum => NZ 0 | NProd => NZ 1 | NMin | NMax => NV None | _ => NL []
+    end.
+
+  Definition nstep (o : nop) (a : nacc) (v : val) : option nacc :=
+    match o, a with
+    | NSum, NZ z => option_map (fun x => NZ (z + x)) (as_int v)
+    | NProd, NZ z => option_map (fun x => NZ (z * x)) (as_int v)
+    | NMin, NV None | NMax, NV None => Some (NV (Some v))
+    | NMin, NV (Some b) =>
+        match as_int b, as_int v with
+        | Some bz, Some z => Some (NV (Some (if z <? bz then v else b)))
+        | _, _ => None end
+    | NMax, NV (Some b) =>
+        match as_int b, as_int v with
+        | Some bz, Some z => Some (NV (Some (if bz <? z then v else b)))
+        | _, _ => None end
+    | NCall _ _, NL l => Some (NL (v :: l))
+    | _, _ => None
+    end.
+
+  Definition nfinish (o : nop) (a : nacc) : rs val :=
+    match o, a with
+    | NSum, NZ z | NProd, NZ z => Ok (VInt z)
+    | NMin, NV (Some b) | NMax, NV (Some b) => Ok b
+    | NCall f kw, NL l => call1 f kw (rev l)
+    | _, _ => Err false          (* min()/max() of nothing: ValueError *)
     end.
 
   (* eval returns the variables read from the store, in order, and the value
@@ -190,18 +215,22 @@ Section Sem.
                end
            end) l
     | ENary o l =>
-        let (r, vs) :=
-          (fix go (l : list expr) : list var * rs (list val) :=
+        let (r, a) :=
+          (fix go (acc : nacc) (l : list expr) : list var * rs nacc :=
              match l with
-             | [] => ([], Ok [])
-             | a :: l' =>
-                 let (r, v) := eval s a in
+             | [] => ([], Ok acc)
+             | e :: l' =>
+                 let (r, v) := eval s e in
                  match v with
                  | Err u => (r, Err u)
-                 | Ok x => let (r2, vs) := go l' in (r ++ r2, rmap (cons x) vs)
+                 | Ok x =>
+                     match nstep o acc x with
+                     | None => (r, Err false)
+                     | Some acc' => let (r2, res) := go acc' l' in (r ++ r2, res)
+                     end
                  end
-             end) l in
-        (r, rbind vs (nary o))
+             end) (ninit o) l in
+        (r, rbind a (nfinish o))
     end.
 
   Fixpoint eval_list (s : store) (l : list expr) : list var * rs (list val) :=
@@ -291,12 +320,8 @@ Section Sem.
     end.
 
   (* range() bounds must be integers (bools count) *)
-  Definition eval_bound (s : store) (e : expr) : list var * rs Z :=
-    let (r, v) := eval s e in
-    (r, rbind v (fun v => match v with
-                          | VInt z => Ok z
-                          | VBool b => Ok (if b then 1 else 0)
-                          | _ => Err false end)).
+  Definition bound_int (v : val) : rs Z :=
+    match v with VInt z => Ok z | VBool b => Ok (if b then 1 else 0) | _ => Err false end.
 
   Fixpoint run_loops (loops : list (var * expr * expr))
            (body : store -> list access * rs store) (s : store)
@@ -304,16 +329,21 @@ Section Sem.
     match loops with
     | [] => body s
     | (ident, lo, hi) :: ls =>
-        let (r1, vlo) := eval_bound s lo in
+        (* range(eval(start), eval(stop)): both are evaluated, then range() checks the types *)
+        let (r1, vlo) := eval s lo in
         match vlo with
         | Err u => (rds r1, Err u)
-        | Ok a =>
-          let (r2, vhi) := eval_bound s hi in
+        | Ok vl =>
+          let (r2, vhi) := eval s hi in
           match vhi with
           | Err u => (rds r1 ++ rds r2, Err u)
-          | Ok b =>
-            let (acc, res) := iter_range (Z.to_nat (b - a)) a ident (run_loops ls body) s in
-            (rds r1 ++ rds r2 ++ acc, res)
+          | Ok vh =>
+            match bound_int vl, bound_int vh with
+            | Ok a, Ok b =>
+              let (acc, res) := iter_range (Z.to_nat (b - a)) a ident (run_loops ls body) s in
+              (rds r1 ++ rds r2 ++ acc, res)
+            | _, _ => (rds r1 ++ rds r2, Err false)
+            end
           end
         end
     end.
